@@ -200,6 +200,8 @@ func InitRound(st State) State {
 }
 
 // Init (4.1): state after initialisation.
+//
+//vc:smtfun
 func Init(k, iv [4]uint32) State {
 	st := Load(k, iv)
 	for i := 0; i < 32; i++ {
@@ -209,9 +211,13 @@ func Init(k, iv [4]uint32) State {
 }
 
 // Step is one keystream-mode clock: FSM, then LFSR in keystream mode.
+//
+//vc:smtfun
 func Step(st State) State { return LFSRKey(ClockFSM(st)) }
 
 // Out is the keystream word produced when the generator is clocked from st.
+//
+//vc:smtfun
 func Out(st State) uint32 { return FSMOut(st) ^ st.S[0] }
 
 // Iter is st clocked t times in keystream mode.
